@@ -108,6 +108,19 @@ def step (st : St) : List String → St × String
   | ["corrupt", kind, n] =>
     let cdata :=
       if kind == "ver" then st.data.take (st.data.length - u32W) ++ leBytes u32W (natOr n)
+      else if kind == "idx2" then
+        -- one index offset at the end of the entries block (readKey fails with EOF) and one beyond it (panic): whether
+        -- `Get` errs or panics depends on which the binary search probes, and it keeps probing after an error
+        match st.fresh with
+        | some m =>
+          if m.offsets.isEmpty then st.data
+          else
+            let cnt := m.offsets.length
+            let j := natOr n % cnt
+            let j2 := (j + 1 + natOr n % 3) % cnt
+            let offs := (m.offsets.set j st.doc.entriesSize).set j2 (st.doc.entriesSize + 1 + natOr n)
+            encEntries st.ents ++ encFooter ⟨m.bloom, offs⟩ st.doc.entriesSize
+        | none => st.data
       else if kind == "idx" then
         -- one index offset pointing beyond the entries block (the writer never produces this)
         match st.fresh with
@@ -126,7 +139,7 @@ def step (st : St) : List String → St × String
   | ["runinfo"] =>                                     -- M-obs: exact chunking and files
     let descr := st.chunks.map fun c => s!"{c.length}:{toHex (docOf c).startKey}:{toHex (docOf c).endKey}:{(docOf c).size}:{(fnv64 (encTable c)).toNat}"
     (st, joinWith " " (s!"n={st.chunks.length}" :: descr))
-  | ["runok"] => (st, "ok")     -- spec: C17.writeRun_concat / writeRun_ranges / writeRun_nonempty
+  | ["runok"] => (st, "ok")     -- spec: C17.writeRun_concat / writeRun_ranges / writeRun_nonempty_tables / writeRun_sizes
   | ["sel", i] => (selectTable st (st.chunks.getD (natOr i) []), "ok")
   | ["wnew", id, mx] => ({ st with w := Wal.Writer.new (natOr id) (natOr mx), saved := [] }, "ok")
   | ["wput", k, v, q] =>
